@@ -68,7 +68,10 @@ def main(tier="quick"):
             if e["sim"] not in sims_done:
                 sims_done.add(e["sim"])
                 todo.append((prop, e["sim"], int(e["quick"].get("runs_per_spec", 1))))
+    only = [x for x in os.environ.get("VERIF_SELFTEST_SIMS", "").split(",") if x]
     for prop, sim, k in todo:
+        if only and sim not in only:
+            continue
         seeds = [7_000_000 + i * 5 for i in range(n)]
         first = digests(prop, seeds, k, sim_name=sim)
         second = digests(prop, list(reversed(seeds)), k, replay_too=False, sim_name=sim)
